@@ -1,5 +1,6 @@
 import BppModel.Proto
 import BppModel.Drive.C05
+import BppModel.Drive.C07
 import BppModel.Drive.C11
 import BppModel.Drive.C19
 import BppModel.Drive.C20
@@ -8,6 +9,7 @@ open Bpp
 def main (args : List String) : IO UInt32 := do
   match args with
   | ["C05"] => Proto.run Drive.C05.machine; return 0
+  | ["C07"] => Proto.run Drive.C07.machine; return 0
   | ["C11"] => Proto.run Drive.C11.machine; return 0
   | ["C19"] => Proto.run Drive.C19.machine; return 0
   | ["C20"] => Proto.run Drive.C20.machine; return 0
